@@ -1,11 +1,22 @@
 /-
   C04 — scalar values decode to the value PostgreSQL stored; type names.
-  Property theorems only; helper lemmas are in Proofs/Scalars*.lean.
+  Property theorems only; helper lemmas are in Proofs/ScalarsRT.lean (and ScalarsCal / ScalarsRange).
+
+  Shape of every per-type theorem: for every well-formed abstract value `v` of the type (Spec.Scalars:
+  `Val`, `WF` = valid stored value in the type's common range), running the model of DecodeType on
+  PostgreSQL's stored representation `enc v` under the type's oid returns exactly `view v`, the value a
+  correct tool must show.  `ext` (the decoders of other areas and `encoding/json`) is arbitrary.
 -/
-import PgVerif.Model.Scalars
-import PgVerif.Spec.Scalars
+import PgVerif.Proofs.ScalarsRT
+import PgVerif.Proofs.ScalarsBits
+import PgVerif.Proofs.ScalarsTime
 namespace PgVerif.Props.C04
-open PgVerif PgVerif.Model.Scalars PgVerif.Spec.Scalars PgVerif.Txt
+open PgVerif PgVerif.Model.Scalars PgVerif.Spec.Scalars PgVerif.Txt PgVerif.Proofs.ScalarsRT
+
+/-- the round-trip statement for one abstract value -/
+def RoundTrip (ext : Ext) (v : Val) : Prop := decodeType ext (enc v) v.typeOid = .ok (view v)
+
+/-! ### type names -/
 
 /-- For every supported type oid, TypeName (its graph on 0..5000 is generated from the code by
 executing it) returns PostgreSQL's name of that type. -/
@@ -14,5 +25,398 @@ theorem C04_typeName : ∀ e ∈ pgTypeNames, typeName e.1 = asc e.2 := by decid
 /-- Conversely, every oid in 0..5000 to which TypeName gives a name (rather than `oid:<n>`) is a
 supported type and the name is PostgreSQL's: the tool never shows a wrong type name. -/
 theorem C04_typeName_only : ∀ e ∈ Generated.Scalars.typeNames, ∃ p ∈ pgTypeNames, p.1 = e.1 ∧ asc p.2 = e.2 := by decide
+
+/-! ### bool, "char", integers, oid / xid / cid, floats -/
+
+/-- bool: both stored bytes decode to the stored truth value. -/
+theorem C04_bool (ext : Ext) (b : Bool) : RoundTrip ext (.bool b) := by
+  cases b <;> rfl
+
+/-- "char": every byte value is shown as that byte. -/
+theorem C04_char (ext : Ext) (c : UInt8) : RoundTrip ext (.char c) := by
+  show decodeType ext [c] 18 = _
+  rw [decodeType_18 ext [c] (by simp)]
+  rfl
+
+/-- int2: every value −32768..32767 decodes to itself. -/
+theorem C04_int2 (ext : Ext) (i : Int) (h : (Val.int2 i).WF) : RoundTrip ext (.int2 i) := by
+  show decodeType ext (le 2 (ofSigned 16 i)) 21 = .ok (.int i)
+  rw [decodeType_21 ext _ (by simp)]
+  simp only [decInt2, i16, uN_le1 2 _ (ofSigned_lt 16 i), ok_bind, pure_eq_ok]
+  rw [toSigned_ofSigned16 i h]
+
+/-- int4: every value −2³¹..2³¹−1 decodes to itself. -/
+theorem C04_int4 (ext : Ext) (i : Int) (h : (Val.int4 i).WF) : RoundTrip ext (.int4 i) := by
+  show decodeType ext (le 4 (ofSigned 32 i)) 23 = .ok (.int i)
+  rw [decodeType_23 ext _ (by simp)]
+  simp only [decInt4, i32, uN_le1 4 _ (ofSigned_lt 32 i), ok_bind, pure_eq_ok]
+  rw [toSigned_ofSigned32 i h]
+
+/-- int8: every value −2⁶³..2⁶³−1 decodes to itself. -/
+theorem C04_int8 (ext : Ext) (i : Int) (h : (Val.int8 i).WF) : RoundTrip ext (.int8 i) := by
+  show decodeType ext (le 8 (ofSigned 64 i)) 20 = .ok (.int i)
+  rw [decodeType_20 ext _ (by simp)]
+  simp only [decInt8, i64, uN_le1 8 _ (ofSigned_lt 64 i), ok_bind, pure_eq_ok]
+  rw [toSigned_ofSigned64 i h]
+
+/-- oid: every value 0..2³²−1 decodes to itself (unsigned). -/
+theorem C04_oid (ext : Ext) (n : Nat) (h : (Val.oid n).WF) : RoundTrip ext (.oid n) := by
+  have hn : n < 256 ^ 4 := by simpa [Val.WF, Val.wf] using h
+  show decodeType ext (le 4 n) 26 = .ok (.int n)
+  rw [decodeType_26 ext _ (by simp)]
+  simp only [decU32, u32, uN_le1 4 n hn, ok_bind, pure_eq_ok]
+
+/-- xid: every transaction id 0..2³²−1 decodes to itself, unsigned (A08 repaired: 3000000000 is not −1294967296). -/
+theorem C04_xid (ext : Ext) (n : Nat) (h : (Val.xid n).WF) : RoundTrip ext (.xid n) := by
+  have hn : n < 256 ^ 4 := by simpa [Val.WF, Val.wf] using h
+  show decodeType ext (le 4 n) 28 = .ok (.int n)
+  rw [decodeType_28 ext _ (by simp)]
+  simp only [decU32, u32, uN_le1 4 n hn, ok_bind, pure_eq_ok]
+
+/-- cid: every command id 0..2³²−1 decodes to itself, unsigned (A08 repaired). -/
+theorem C04_cid (ext : Ext) (n : Nat) (h : (Val.cid n).WF) : RoundTrip ext (.cid n) := by
+  have hn : n < 256 ^ 4 := by simpa [Val.WF, Val.wf] using h
+  show decodeType ext (le 4 n) 29 = .ok (.int n)
+  rw [decodeType_29 ext _ (by simp)]
+  simp only [decU32, u32, uN_le1 4 n hn, ok_bind, pure_eq_ok]
+
+/-- float4: all 2³² bit patterns (NaN payloads, ±0, subnormals, ±Inf included) come out unchanged. -/
+theorem C04_float4 (ext : Ext) (b : Nat) (h : (Val.float4 b).WF) : RoundTrip ext (.float4 b) := by
+  have hn : b < 256 ^ 4 := by simpa [Val.WF, Val.wf] using h
+  show decodeType ext (le 4 b) 700 = .ok (.f32 b)
+  rw [decodeType_700 ext _ (by simp)]
+  simp only [decFloat4, u32, uN_le1 4 b hn, ok_bind, pure_eq_ok]
+
+/-- float8: all 2⁶⁴ bit patterns come out unchanged. -/
+theorem C04_float8 (ext : Ext) (b : Nat) (h : (Val.float8 b).WF) : RoundTrip ext (.float8 b) := by
+  have hn : b < 256 ^ 8 := by simpa [Val.WF, Val.wf] using h
+  show decodeType ext (le 8 b) 701 = .ok (.f64 b)
+  rw [decodeType_701 ext _ (by simp)]
+  simp only [decFloat8, u64, uN_le1 8 b hn, ok_bind, pure_eq_ok]
+
+/-! ### text-like, bytea -/
+
+/-- text / varchar / bpchar / xml: every non-empty valid UTF-8 string comes out byte for byte. -/
+theorem C04_text (ext : Ext) (ty : TextTy) (s : Bytes) (h : (Val.text ty s).WF) : RoundTrip ext (.text ty s) := by
+  have h' : s.length ≥ 1 ∧ utf8Valid s = true := by simpa [Val.WF, Val.wf] using h
+  have hs : safeString s = s := by simp [safeString, h'.2]
+  cases ty
+  · show decodeType ext s 25 = .ok (.str s); rw [decodeType_25 ext s h'.1, hs]; rfl
+  · show decodeType ext s 1043 = .ok (.str s); rw [decodeType_1043 ext s h'.1, hs]; rfl
+  · show decodeType ext s 1042 = .ok (.str s); rw [decodeType_1042 ext s h'.1, hs]; rfl
+  · show decodeType ext s 142 = .ok (.str s); rw [decodeType_142 ext s h'.1, hs]; rfl
+
+/-- bytea: every non-empty byte string is shown as `\x` followed by two hex digits per byte. -/
+theorem C04_bytea (ext : Ext) (b : Bytes) (h : (Val.bytea b).WF) : RoundTrip ext (.bytea b) := by
+  have h' : b.length ≥ 1 := by simpa [Val.WF, Val.wf] using h
+  show decodeType ext b 17 = _
+  rw [decodeType_17 ext b h']; rfl
+
+/-- json: the stored text is handed unchanged to the JSON library and its result is returned: whenever
+the library parses the serialisation of a document to that document (`encoding/json`'s contract, checked
+by the correspondence run on every generated document), the decoded value is the document.
+Partial: the JSON parser itself is a parameter, not modelled. -/
+theorem C04_json_partial (ext : Ext) (d : JV) (ws : Nat)
+    (hlib : ext.jsonUnmarshal (d.render ws) = some d.view) (hne : (d.render ws).length ≥ 1) :
+    RoundTrip ext (.json d ws) := by
+  show decodeType ext (d.render ws) 114 = .ok d.view
+  rw [decodeType_114 ext _ hne]
+  simp [decJSON, hlib]
+
+/-! ### time of day, interval -/
+
+/-- time: every value 00:00:00 .. 24:00:00 is shown as hh:mm:ss (whole seconds). -/
+theorem C04_time (ext : Ext) (us : Nat) (h : (Val.time us).WF) : RoundTrip ext (.time us) := by
+  have hu : us ≤ 86400000000 := by simpa [Val.WF, Val.wf] using h
+  show decodeType ext (le 8 us) 1083 = _
+  rw [decodeType_1083 ext _ (by simp)]
+  simp only [decTime, i64, uN_le1 8 us (by omega), ok_bind, pure_eq_ok]
+  rw [toSigned_small 64 us (by simp; omega), fmtTimeOfDay_nat]
+  rfl
+
+/-- timetz: every time of day with every zone offset −15:59:59..+15:59:59 is shown with the full zone
+`+hh[:mm[:ss]]`, east positive (A13 repaired). -/
+theorem C04_timetz (ext : Ext) (us : Nat) (z : Int) (h : (Val.timetz us z).WF) : RoundTrip ext (.timetz us z) := by
+  have h' : us ≤ 86400000000 ∧ -57600 < z ∧ z < 57600 := by
+    simpa [Val.WF, Val.wf, and_assoc] using h
+  have hz : inI 32 z = true := by simp [inI]; omega
+  show decodeType ext (le 8 us ++ le 4 (ofSigned 32 z)) 1266 = _
+  rw [decodeType_1266 ext _ (by simp)]
+  have r1 : uN 8 (le 8 us ++ le 4 (ofSigned 32 z)) 0 = .ok us := uN_le0 8 us _ (by omega)
+  have r2 : uN 4 (le 8 us ++ le 4 (ofSigned 32 z)) 8 = .ok (ofSigned 32 z) := by
+    have := uN_le 4 (ofSigned 32 z) 8 (le 8 us) [] (by simp) (ofSigned_lt 32 z)
+    simpa using this
+  simp only [decTimeTZ, i64, i32, r1, r2, ok_bind, pure_eq_ok]
+  rw [toSigned_small 64 us (by simp; omega), fmtTimeOfDay_nat, toSigned_ofSigned32 z hz, fmtZone_eq]
+  rfl
+
+/-- interval: months, days and microseconds of every sign are all shown, each component with its own
+sign (A14 repaired), at whole-second resolution. -/
+theorem C04_interval (ext : Ext) (months days us : Int) (h : (Val.interval months days us).WF) :
+    RoundTrip ext (.interval months days us) := by
+  have h' : inI 32 months = true ∧ inI 32 days = true ∧ inI 64 us = true := by
+    simpa [Val.WF, Val.wf, and_assoc] using h
+  show decodeType ext (le 8 (ofSigned 64 us) ++ le 4 (ofSigned 32 days) ++ le 4 (ofSigned 32 months)) 1186 = _
+  rw [decodeType_1186 ext _ (by simp)]
+  have r1 : uN 8 (le 8 (ofSigned 64 us) ++ le 4 (ofSigned 32 days) ++ le 4 (ofSigned 32 months)) 0 = .ok (ofSigned 64 us) := by
+    rw [List.append_assoc]; exact uN_le0 8 _ _ (ofSigned_lt 64 us)
+  have r2 : uN 4 (le 8 (ofSigned 64 us) ++ le 4 (ofSigned 32 days) ++ le 4 (ofSigned 32 months)) 8 = .ok (ofSigned 32 days) := by
+    rw [List.append_assoc]; exact uN_le 4 _ 8 _ _ (by simp) (ofSigned_lt 32 days)
+  have r3 : uN 4 (le 8 (ofSigned 64 us) ++ le 4 (ofSigned 32 days) ++ le 4 (ofSigned 32 months)) 12 = .ok (ofSigned 32 months) := by
+    have := uN_le 4 (ofSigned 32 months) 12 (le 8 (ofSigned 64 us) ++ le 4 (ofSigned 32 days)) [] (by simp) (ofSigned_lt 32 months)
+    simpa using this
+  have hl : ¬ (le 8 (ofSigned 64 us) ++ le 4 (ofSigned 32 days) ++ le 4 (ofSigned 32 months)).length < 16 := by simp
+  simp only [decodeInterval, hl, if_false, i64, i32, r1, r2, r3, ok_bind, pure_eq_ok]
+  rw [toSigned_ofSigned64 us h'.2.2, toSigned_ofSigned32 days h'.2.1, toSigned_ofSigned32 months h'.1]
+  exact ite_ok_str _ _ _
+
+/-! ### geometric types with fixed width (floats carried as bit patterns, NaN payloads collapsed) -/
+
+/-- point: both coordinates, for all bit patterns. -/
+theorem C04_point (ext : Ext) (p : Pt) (h : (Val.point p).WF) : RoundTrip ext (.point p) := by
+  have h' : p.1 < 2 ^ 64 ∧ p.2 < 2 ^ 64 := by simpa [Val.WF, Val.wf] using h
+  show decodeType ext (encPt p) 600 = _
+  rw [decodeType_600 ext _ (by simp [encPt_length])]
+  simp only [decPoint, decodePoint_enc p h'.1 h'.2, ok_bind, pure_eq_ok]
+  rfl
+
+/-- lseg: both end points. -/
+theorem C04_lseg (ext : Ext) (a b : Pt) (h : (Val.lseg a b).WF) : RoundTrip ext (.lseg a b) := by
+  have h' : a.1 < 2 ^ 64 ∧ a.2 < 2 ^ 64 ∧ b.1 < 2 ^ 64 ∧ b.2 < 2 ^ 64 := by simpa [Val.WF, Val.wf, and_assoc] using h
+  show decodeType ext (encPt a ++ encPt b) 601 = _
+  rw [decodeType_601 ext _ (by simp [encPt_length])]
+  have s1 : slice (encPt a ++ encPt b) 0 16 = .ok (encPt a) := slice_left _ _ 16 (encPt_length a)
+  have s2 : slice (encPt a ++ encPt b) 16 32 = .ok (encPt b) :=
+    slice_right _ _ 16 32 (encPt_length a) (by rw [encPt_length])
+  simp only [decLseg, s1, s2, decodePoint_enc a h'.1 h'.2.1, decodePoint_enc b h'.2.2.1 h'.2.2.2, ok_bind, pure_eq_ok]
+  rfl
+
+/-- box: both corners. -/
+theorem C04_box (ext : Ext) (a b : Pt) (h : (Val.box a b).WF) : RoundTrip ext (.box a b) := by
+  have h' : a.1 < 2 ^ 64 ∧ a.2 < 2 ^ 64 ∧ b.1 < 2 ^ 64 ∧ b.2 < 2 ^ 64 := by simpa [Val.WF, Val.wf, and_assoc] using h
+  show decodeType ext (encPt a ++ encPt b) 603 = _
+  rw [decodeType_603 ext _ (by simp [encPt_length])]
+  have s1 : slice (encPt a ++ encPt b) 0 16 = .ok (encPt a) := slice_left _ _ 16 (encPt_length a)
+  have s2 : slice (encPt a ++ encPt b) 16 32 = .ok (encPt b) :=
+    slice_right _ _ 16 32 (encPt_length a) (by rw [encPt_length])
+  simp only [decBox, s1, s2, decodePoint_enc a h'.1 h'.2.1, decodePoint_enc b h'.2.2.1 h'.2.2.2, ok_bind, pure_eq_ok]
+  rfl
+
+/-- line: the three coefficients A, B, C. -/
+theorem C04_line (ext : Ext) (a b c : Nat) (h : (Val.line a b c).WF) : RoundTrip ext (.line a b c) := by
+  have h' : a < 2 ^ 64 ∧ b < 2 ^ 64 ∧ c < 2 ^ 64 := by simpa [Val.WF, Val.wf, and_assoc] using h
+  show decodeType ext (le 8 a ++ le 8 b ++ le 8 c) 628 = _
+  rw [decodeType_628 ext _ (by simp)]
+  have r1 : uN 8 (le 8 a ++ le 8 b ++ le 8 c) 0 = .ok a := by
+    rw [List.append_assoc]; exact uN_le0 8 _ _ (pow64 _ h'.1)
+  have r2 : uN 8 (le 8 a ++ le 8 b ++ le 8 c) 8 = .ok b := by
+    rw [List.append_assoc]; exact uN_le 8 _ 8 _ _ (by simp) (pow64 _ h'.2.1)
+  have r3 : uN 8 (le 8 a ++ le 8 b ++ le 8 c) 16 = .ok c := by
+    have := uN_le 8 c 16 (le 8 a ++ le 8 b) [] (by simp) (pow64 _ h'.2.2)
+    simpa using this
+  simp only [decLine, u64, r1, r2, r3, ok_bind, pure_eq_ok]
+  rfl
+
+/-- circle: centre and radius. -/
+theorem C04_circle (ext : Ext) (c : Pt) (r : Nat) (h : (Val.circle c r).WF) : RoundTrip ext (.circle c r) := by
+  have h' : c.1 < 2 ^ 64 ∧ c.2 < 2 ^ 64 ∧ r < 2 ^ 64 := by simpa [Val.WF, Val.wf, and_assoc] using h
+  show decodeType ext (encPt c ++ le 8 r) 718 = _
+  rw [decodeType_718 ext _ (by simp [encPt_length])]
+  have r3 : uN 8 (encPt c ++ le 8 r) 16 = .ok r := by
+    have := uN_le 8 r 16 (encPt c) [] (by simp [encPt_length]) (pow64 _ h'.2.2)
+    simpa using this
+  have hs : slice (encPt c ++ le 8 r) 0 16 = .ok (encPt c) := by
+    rw [slice_ok _ _ _ (by simp [encPt_length]) (by omega)]
+    simp [List.take_left' (encPt_length c)]
+  simp only [decCircle, hs, decodePoint_enc c h'.1 h'.2.1, u64, r3, ok_bind, pure_eq_ok]
+  rfl
+
+/-! ### name, tid, pg_lsn, uuid, macaddr, macaddr8 -/
+
+/-- name: every identifier of up to 63 non-NUL bytes, stored NUL-padded to 64 bytes, comes out exactly. -/
+theorem C04_name (ext : Ext) (s : Bytes) (h : (Val.name s).WF) : RoundTrip ext (.name s) := by
+  have h' : s.length < 64 ∧ s.contains 0 = false := by simpa [Val.WF, Val.wf] using h
+  show decodeType ext (s ++ zeros (64 - s.length)) 19 = .ok (.str s)
+  rw [decodeType_19 ext _ (by simp; omega)]
+  simp only [pure_eq_ok, cstring_name s h'.1 h'.2]
+
+/-- tid, partial: `(block,offset)` is right for every offset and every block number whose two 16-bit
+halves are equal.  Missing: all other block numbers — the halves come out swapped (A11, pinned by
+TestDecodeTid; recorded finding), see `C04_tid_finding`. -/
+theorem C04_tid_partial (ext : Ext) (block off : Nat) (h : (Val.tid block off).WF)
+    (hk : kfTid (.tid block off) = false) : RoundTrip ext (.tid block off) := by
+  have h' : block < 2 ^ 32 ∧ off < 2 ^ 16 := by simpa [Val.WF, Val.wf] using h
+  have hk' : block / 65536 = block % 65536 := by simpa [kfTid] using hk
+  show decodeType ext (le 2 (block / 65536) ++ le 2 (block % 65536) ++ le 2 off) 27 = _
+  rw [decodeType_27 ext _ (by simp)]
+  have e : le 2 (block / 65536) ++ le 2 (block % 65536) = le 4 block := by
+    rw [← le4_split _ _ (by omega)]; congr 1; omega
+  have r1 : uN 4 (le 2 (block / 65536) ++ le 2 (block % 65536) ++ le 2 off) 0 = .ok block := by
+    rw [e]; exact uN_le0 4 _ _ (by omega)
+  have r2 : uN 2 (le 2 (block / 65536) ++ le 2 (block % 65536) ++ le 2 off) 4 = .ok off := by
+    have := uN_le 2 off 4 (le 2 (block / 65536) ++ le 2 (block % 65536)) [] (by simp) (by omega)
+    simpa using this
+  simp only [decTid, u32, u16, r1, r2, ok_bind, pure_eq_ok]
+  rfl
+
+/-- the tid defect on a concrete stored value: block 65536, offset 5 (bytes 01 00 00 00 05 00) is
+shown as `(1,5)`, not `(65536,5)`. -/
+theorem C04_tid_finding (ext : Ext) : (Val.tid 65536 5).WF ∧ ¬ RoundTrip ext (.tid 65536 5) := by
+  refine ⟨by decide, ?_⟩
+  intro h
+  have hm : decodeType ext (enc (.tid 65536 5)) 27 = .ok (.str [40, 49, 44, 53, 41]) := rfl
+  unfold RoundTrip at h
+  rw [show (Val.tid 65536 5).typeOid = 27 from rfl, hm] at h
+  injection h with h
+  injection h with h
+  revert h; decide
+
+/-- pg_lsn, partial: `%X/%X` is right for every LSN whose high and low 32-bit halves are equal.
+Missing: all other LSNs — printed low/high (A10, pinned by TestDecodePgLsn; recorded finding). -/
+theorem C04_pglsn_partial (ext : Ext) (v : Nat) (h : (Val.pglsn v).WF) (hk : kfPgLsn (.pglsn v) = false) :
+    RoundTrip ext (.pglsn v) := by
+  have h' : v < 2 ^ 64 := by simpa [Val.WF, Val.wf] using h
+  have hk' : v / 4294967296 = v % 4294967296 := by simpa [kfPgLsn] using hk
+  show decodeType ext (le 8 v) 3220 = _
+  rw [decodeType_3220 ext _ (by simp)]
+  have r1 : uN 4 (le 8 v) 0 = .ok (v % 4294967296) := by
+    rw [le8_split]; exact uN_le0 4 _ _ (by omega)
+  have r2 : uN 4 (le 8 v) 4 = .ok (v / 4294967296) := by
+    rw [le8_split]
+    have := uN_le 4 (v / 4294967296) 4 (le 4 (v % 4294967296)) [] (by simp) (by omega)
+    simpa using this
+  simp only [decPgLsn, u32, r1, r2, ok_bind, pure_eq_ok]
+  show Except.ok (GoVal.str _) = Except.ok (GoVal.str (hexNat true (v / 2 ^ 32) ++ [47] ++ hexNat true (v % 2 ^ 32)))
+  have e32 : (2 : Nat) ^ 32 = 4294967296 := by decide
+  rw [e32, hk', ← hk', hk']
+
+/-- the pg_lsn defect on a concrete stored value: FF/1 (bytes 01 00 00 00 ff 00 00 00) is shown as `1/FF`. -/
+theorem C04_pglsn_finding (ext : Ext) : (Val.pglsn (255 * 2 ^ 32 + 1)).WF ∧ ¬ RoundTrip ext (.pglsn (255 * 2 ^ 32 + 1)) := by
+  refine ⟨by decide, ?_⟩
+  intro h
+  have hm : decodeType ext (enc (.pglsn (255 * 2 ^ 32 + 1))) 3220 = .ok (.str [49, 47, 70, 70]) := rfl
+  unfold RoundTrip at h
+  rw [show (Val.pglsn (255 * 2 ^ 32 + 1)).typeOid = 3220 from rfl, hm] at h
+  injection h with h
+  injection h with h
+  revert h; decide
+
+/-- uuid: all 16 bytes in stored order, as 8-4-4-4-12 lower-case hex (A09 repaired). -/
+theorem C04_uuid (ext : Ext) (b : Bytes) (h : (Val.uuid b).WF) : RoundTrip ext (.uuid b) := by
+  have hl : b.length = 16 := by simpa [Val.WF, Val.wf] using h
+  show decodeType ext b 2950 = _
+  rw [decodeType_2950 ext b (by omega)]
+  exact decUUID_view b hl
+
+/-- macaddr: six bytes as `xx:xx:xx:xx:xx:xx`. -/
+theorem C04_macaddr (ext : Ext) (b : Bytes) (h : (Val.macaddr b).WF) : RoundTrip ext (.macaddr b) := by
+  have hl : b.length = 6 := by simpa [Val.WF, Val.wf] using h
+  show decodeType ext b 829 = _
+  rw [decodeType_829 ext b (by omega)]
+  exact decMac6_view b hl
+
+/-- macaddr8: eight bytes as `xx:xx:xx:xx:xx:xx:xx:xx`. -/
+theorem C04_macaddr8 (ext : Ext) (b : Bytes) (h : (Val.macaddr8 b).WF) : RoundTrip ext (.macaddr8 b) := by
+  have hl : b.length = 8 := by simpa [Val.WF, Val.wf] using h
+  show decodeType ext b 774 = _
+  rw [decodeType_774 ext b (by omega)]
+  exact decMac8_view b hl
+
+/-! ### bit strings, inet / cidr -/
+
+/-- bit / varbit: every bit string of every length below 2³¹ is shown bit for bit, most significant
+bit of each byte first, without the padding bits of the last byte. -/
+theorem C04_bit (ext : Ext) (vb : Bool) (bits : List Bool) (h : (Val.bit vb bits).WF) : RoundTrip ext (.bit vb bits) := by
+  have hl : bits.length < 2 ^ 31 := by simpa [Val.WF, Val.wf] using h
+  have hlen : (packBits bits).length = (bits.length + 7) / 8 := packBitsN_length _ _
+  have hd : decodeBitString (le 4 bits.length ++ packBits bits) = .ok (view (.bit vb bits)) := by
+    unfold decodeBitString
+    have h4 : ¬ (le 4 bits.length ++ packBits bits).length < 4 := by simp
+    have r1 : uN 4 (le 4 bits.length ++ packBits bits) 0 = .ok bits.length := uN_le0 4 _ _ (by omega)
+    simp only [h4, if_false, i32, r1, ok_bind, pure_eq_ok]
+    rw [toSigned_small 32 _ (by simpa using hl)]
+    by_cases h0 : bits.length = 0
+    · have : bits = [] := List.eq_nil_of_length_eq_zero h0
+      subst this; rfl
+    · have hne : ((bits.length : Int) == 0) = false := by
+        simp only [beq_eq_false_iff_ne, ne_eq]; omega
+      simp only [hne, Bool.false_eq_true, if_false]
+      have hav : ¬ ((bits.length : Int) > (((le 4 bits.length ++ packBits bits).length : Int) - 4) * 8) := by
+        have hc : (le 4 bits.length ++ packBits bits).length = 4 + (bits.length + 7) / 8 := by
+          simp only [List.length_append, le_length, hlen]
+        rw [hc]; omega
+      rw [if_neg hav, Int.toNat_natCast, bitChars_enc _ (by simp) bits bits.length 0 (by omega)]
+      rfl
+  cases vb
+  · show decodeType ext (le 4 bits.length ++ packBits bits) 1560 = _
+    rw [decodeType_1560 ext _ (by simp; omega), hd]
+  · show decodeType ext (le 4 bits.length ++ packBits bits) 1562 = _
+    rw [decodeType_1562 ext _ (by simp; omega), hd]
+
+/-- inet / cidr: IPv4 and IPv6 addresses with every prefix length (0..32, 0..128): dotted decimal or
+eight hexadecimal groups, followed by `/bits` unless the prefix is the full width. -/
+theorem C04_inet (ext : Ext) (cidr v6 : Bool) (addr : Bytes) (bits : Nat) (h : (Val.inet cidr v6 addr bits).WF) :
+    RoundTrip ext (.inet cidr v6 addr bits) := by
+  cases v6
+  · have h' : addr.length = 4 ∧ bits ≤ 32 := by simpa [Val.WF, Val.wf] using h
+    have hl := h'.1
+    obtain ⟨x0, t0, rfl, h0⟩ := exists_cons_of_length hl
+    obtain ⟨x1, t1, rfl, h1⟩ := exists_cons_of_length h0
+    obtain ⟨x2, t2, rfl, h2⟩ := exists_cons_of_length h1
+    obtain ⟨x3, t3, rfl, h3⟩ := exists_cons_of_length h2
+    have := List.eq_nil_of_length_eq_zero h3; subst this
+    have hd := decodeInet_v4 x0 x1 x2 x3 bits h'.2
+    cases cidr
+    · show decodeType ext ([2, UInt8.ofNat bits] ++ [x0, x1, x2, x3]) 869 = _
+      rw [decodeType_869 ext _ (by simp), hd]
+    · show decodeType ext ([2, UInt8.ofNat bits] ++ [x0, x1, x2, x3]) 650 = _
+      rw [decodeType_650 ext _ (by simp), hd]; rfl
+  · have h' : addr.length = 16 ∧ bits ≤ 128 := by simpa [Val.WF, Val.wf] using h
+    have hl := h'.1
+    obtain ⟨x0, t0, rfl, h0⟩ := exists_cons_of_length hl
+    obtain ⟨x1, t1, rfl, h1⟩ := exists_cons_of_length h0
+    obtain ⟨x2, t2, rfl, h2⟩ := exists_cons_of_length h1
+    obtain ⟨x3, t3, rfl, h3⟩ := exists_cons_of_length h2
+    obtain ⟨x4, t4, rfl, h4⟩ := exists_cons_of_length h3
+    obtain ⟨x5, t5, rfl, h5⟩ := exists_cons_of_length h4
+    obtain ⟨x6, t6, rfl, h6⟩ := exists_cons_of_length h5
+    obtain ⟨x7, t7, rfl, h7⟩ := exists_cons_of_length h6
+    obtain ⟨x8, t8, rfl, h8⟩ := exists_cons_of_length h7
+    obtain ⟨x9, t9, rfl, h9⟩ := exists_cons_of_length h8
+    obtain ⟨x10, t10, rfl, h10⟩ := exists_cons_of_length h9
+    obtain ⟨x11, t11, rfl, h11⟩ := exists_cons_of_length h10
+    obtain ⟨x12, t12, rfl, h12⟩ := exists_cons_of_length h11
+    obtain ⟨x13, t13, rfl, h13⟩ := exists_cons_of_length h12
+    obtain ⟨x14, t14, rfl, h14⟩ := exists_cons_of_length h13
+    obtain ⟨x15, t15, rfl, h15⟩ := exists_cons_of_length h14
+    have := List.eq_nil_of_length_eq_zero h15; subst this
+    have hd := decodeInet_v6 x0 x1 x2 x3 x4 x5 x6 x7 x8 x9 x10 x11 x12 x13 x14 x15 bits h'.2
+    cases cidr
+    · show decodeType ext ([3, UInt8.ofNat bits] ++ [x0, x1, x2, x3, x4, x5, x6, x7, x8, x9, x10, x11, x12, x13, x14, x15]) 869 = _
+      rw [decodeType_869 ext _ (by simp), hd]
+    · show decodeType ext ([3, UInt8.ofNat bits] ++ [x0, x1, x2, x3, x4, x5, x6, x7, x8, x9, x10, x11, x12, x13, x14, x15]) 650 = _
+      rw [decodeType_650 ext _ (by simp), hd]; rfl
+
+/-! ### date, timestamp, timestamptz -/
+
+/-- date: every calendar day of years 0001..9999 is shown as that day (`YYYY-MM-DD`), and the two
+reserved values as `infinity` / `-infinity` (A12 repaired).  Rests on `civil_pgDate`: the calendar
+the tool prints with inverts PostgreSQL's day count on every valid date. -/
+theorem C04_date (ext : Ext) (d : DateV) (h : (Val.date d).WF) : RoundTrip ext (.date d) := by
+  show decodeType ext (le 4 (ofSigned 32 d.stored)) 1082 = _
+  rw [decodeType_1082 ext _ (by simp)]
+  exact decDate_enc d h
+
+/-- timestamp / timestamptz: every instant of years 0001..9999 (microsecond resolution stored) is shown
+as its calendar date and time of day at whole-second resolution (floor), and the two reserved values
+as `infinity` / `-infinity` (A12 repaired: no 64-bit nanosecond overflow beyond 1708..2262). -/
+theorem C04_timestamp (ext : Ext) (tz : Bool) (t : TsV) (h : (Val.timestamp tz t).WF) : RoundTrip ext (.timestamp tz t) := by
+  cases tz
+  · show decodeType ext (le 8 (ofSigned 64 t.stored)) 1114 = _
+    rw [decodeType_1114 ext _ (by simp)]
+    exact decTimestamp_enc t h
+  · show decodeType ext (le 8 (ofSigned 64 t.stored)) 1184 = _
+    rw [decodeType_1184 ext _ (by simp)]
+    exact decTimestamp_enc t h
 
 end PgVerif.Props.C04
